@@ -341,17 +341,25 @@ func (s *indexKVStore) getOrCreateValue(bucketID uint32, key []byte,
 	if createFn == nil {
 		return 0, false, false, nil
 	}
-	id, err = s.createValue(bucketID, key, createFn)
+	id, isNew, err = s.createValue(bucketID, key, createFn)
 	if err != nil {
 		return 0, false, false, err
 	}
-	return id, true, true, nil
+	return id, true, isNew, nil
 }
 
-// createValue creates new value.
-func (s *indexKVStore) createValue(bucketID uint32, key []byte, createFn func() (uint32, error)) (uint32, error) {
+// createValue creates new value, if the key is still absent.
+func (s *indexKVStore) createValue(bucketID uint32, key []byte, createFn func() (uint32, error)) (id uint32, isNew bool, err error) {
 	s.lock.Lock()
 	defer s.lock.Unlock()
+
+	// the lookup ran without the write lock, another writer may have created the key since
+	if existing, ok := s.getValueFromMem(s.mutable, bucketID, key); ok {
+		return existing, false, nil
+	}
+	if existing, ok := s.getValueFromMem(s.immutable, bucketID, key); ok {
+		return existing, false, nil
+	}
 
 	kvs, ok := s.mutable.Get(bucketID)
 	if !ok {
@@ -359,12 +367,12 @@ func (s *indexKVStore) createValue(bucketID uint32, key []byte, createFn func() 
 		s.mutable.Put(bucketID, kvs)
 	}
 	// generate and store value
-	id, err := createFn()
+	id, err = createFn()
 	if err != nil {
-		return 0, err
+		return 0, false, err
 	}
 	kvs[string(key)] = id
-	return id, nil
+	return id, true, nil
 }
 
 // GetValueFromMem returns value from mem store.
